@@ -124,7 +124,7 @@ COVERS = {
     "seq3": dict(deltas="DeltasQ", bounds="BoundsR", reports="RepR", phc=False, polls=3, ticks=0, starts=1),
 }
 MCQ = dict(deltas="DeltasQ", bounds="BoundsQ", reports="RepQ", phc=True, polls=3, ticks=2, starts=2)
-MCT = dict(deltas="DeltasT", bounds="BoundsQ", reports="RepQ", phc=True, polls=3, ticks=3, starts=2)
+MCT = dict(deltas="DeltasT", bounds="BoundsQ", reports="RepQ", phc=True, polls=3, ticks=2, starts=2)   # ticks=3 with six deltas: > 3*10^8 states
 
 
 def daemon_common(pid, tier, seed, props, level="model_checking", extra=None):
